@@ -293,8 +293,9 @@ func (s *Schema) structType(t reflect.Type, p Params) M {
 // ---------------------------------------------------------------------------------------------------------------
 type Gen struct {
 	R        *rand.Rand
-	MaxList  int // extra elements above the lower bound
-	MinList  int // if > 0: lists near the top of the value (the protocol IE lists) get at least this many elements
+	MaxList  int  // extra elements above the lower bound
+	MinList  int  // if > 0: lists near the top of the value (the protocol IE lists) get at least this many elements
+	Rich     bool // prefer CHOICE alternatives with content (structures, lists) over empty extension containers and enumerations; use extension values of extensible INTEGERs
 	MaxStr   int
 	Depth    int
 	BadProb  float64 // probability of deliberately violating a constraint at a leaf
@@ -353,6 +354,9 @@ func (g *Gen) pickInt(lb, ub *int64, ext bool) int64 {
 		return c[g.R.Intn(len(c))]
 	}
 	hi := *ub
+	if g.Rich && ext && hi < 1<<50 && g.R.Intn(3) == 0 {
+		return hi + 1 + int64(g.R.Intn(300)) // an extension value: encoded with the extension bit set, as an unconstrained INTEGER
+	}
 	if g.BadProb > 0 && g.R.Float64() < g.BadProb && !ext && hi < 1<<50 {
 		g.Violated = true
 		if g.R.Intn(2) == 0 && lo > -(1<<29) {
@@ -456,6 +460,31 @@ func (g *Gen) Fill(v reflect.Value, p Params, depth int) {
 				return
 			}
 			alt := 1 + g.R.Intn(t.NumField()-1)
+			if g.Rich {
+				var cands []int
+				for a := 1; a < t.NumField(); a++ {
+					ft := t.Field(a).Type
+					for ft.Kind() == reflect.Ptr {
+						ft = ft.Elem()
+					}
+					if ft.Kind() == reflect.Struct && hasNoAlternatives(ft) {
+						continue
+					}
+					w := 1
+					if ft.Kind() == reflect.Struct && ft.NumField() > 1 || ft.Kind() == reflect.Slice {
+						w = 4
+					}
+					if ft.Kind() == reflect.Struct && ft.NumField() == 1 && ft.Field(0).Type.Kind() == reflect.Slice {
+						w = 4 // a list wrapped in a structure
+					}
+					for k := 0; k < w; k++ {
+						cands = append(cands, a)
+					}
+				}
+				if len(cands) > 0 {
+					alt = cands[g.R.Intn(len(cands))]
+				}
+			}
 			g.FillAlt(v, alt, depth)
 			return
 		}
